@@ -1,8 +1,159 @@
-From OV.C12 Require Import OpDefs Model.
-From OV.C15 Require Import Model Spec.
-From Coq Require Import List ZArith.
+(* C15 — printing a parsed program preserves its meaning and re-parses identically.
+   Vocabulary: C15/Model.v (expressionParser's shunting-yard `sy_parse`, the node printers `print`,
+   `parse_source` = C12 tokenizer + sy_parse), C15/Spec.v (reference levels of the C++ standard),
+   C15/ProofsParser.v (`toks`: the token sequence of a tree; `wfE`: the trees the parser reproduces),
+   coq/gen/C12_OpTable.v (operator table regenerated from operator.cpp).
+   Level: partial.  Proved: the expression fragment below.  Ternary, sizeof, declarations, statements and
+   programs are tested by the check (print -> re-parse -> dump comparison, g++ values), not proved. *)
+From Coq Require Import List ZArith Bool.
+From OV.C12 Require Import OpDefs Model Spec Table ProofsRoundtrip ProofsTable.
+From OV.C15 Require Import Model Spec ProofsParser ProofsPrint.
+From OV.gen Require Import C12_OpTable C15_Flags.
 Import ListNotations.
 Local Open Scope Z_scope.
-Example placeholder : sy_parse [] = Some EEmpty.
-Proof. reflexivity. Qed.
-Print Assumptions placeholder.
+
+(* ---------------------------------------------------------------- the regenerated operator table *)
+(* every binary operator of the tokenizer has the level and the associativity the C++ standard gives it
+   (written out in Spec.ref_binary); prefix operators are level 3, right-associative; postfix ++/-- level 2 *)
+Theorem table_ok :
+  forallb (fun b => match ref_binary (op_sym b) with
+                    | Some (lv, rassoc) => (op_prec b =? lv) && Bool.eqb (negb (assoc_left (op_prec b))) rassoc
+                    | None => false
+                    end) binops = true
+  /\ forallb (fun u => (op_prec u =? 3) && negb (assoc_left 3)) leftops = true
+  /\ forallb (fun r => (op_prec r =? 2) && assoc_left 2) rightops = true
+  /\ forallb bin_fact binops = true /\ forallb left_fact leftops = true /\ forallb right_fact rightops = true
+  /\ length binops = 35%nat.
+Proof. repeat split; vm_compute; reflexivity. Qed.
+Print Assumptions table_ok.
+
+(* ---------------------------------------------------------------- the shunting-yard rebuilds its image
+   wfE nxt t (ProofsParser.v): t is built from atoms, the prefix operators ! ~ + - * & ++ --, postfix ++ --,
+   the tokenizer's binary operators, parentheses, calls and subscripts such that
+     - a binary or postfix operator pops every pending operator of its left operand (allpop),
+     - no operator on the left spine of a right operand / prefix operand pops its parent (nop_ok),
+       both by the table's precedence and associativity,
+     - the spellings + - * & ++ -- are resolved as the tree says by operatorIsLeftUnary (amb_ok,
+       right_next_ok; nxt is the token after t). *)
+Theorem shunting_yard_identity : forall t, wfE None t -> sy_parse (toks t) = Some t.
+Proof. exact parse_toks. Qed.
+Print Assumptions shunting_yard_identity.
+
+(* the general step: the tokens of a well-formed tree, consumed on top of any stacks, leave the pending
+   right spine of the tree on those stacks *)
+Theorem shunting_yard_consume : forall nxt t, wfE nxt t -> forall st rest,
+  hd_error rest = nxt -> prev_ok (st_prev st) -> nop_ok (opsk st) t = true ->
+  run st (toks t ++ rest) =
+  run (after st (lastu t) (sp_out t ++ outs st) (sp_ops t ++ opsk st)) rest.
+Proof. exact consume. Qed.
+Print Assumptions shunting_yard_consume.
+
+(* ---------------------------------------------------------------- printed text -> same tree
+   Full statement (the property, expression part):
+     forall t, wfE None t -> atoms of t are good C12 tokens ->
+       parse_source fixed (print fixed true t ++ [0]) = Ok (Some t).
+   Proved here for the trees whose printed form separates all tokens by blanks (btree: atoms joined by the
+   binary operators that print as ` op `); for the other constructors (prefix/postfix operators,
+   parentheses, calls, subscripts, comma, member access) the parser half is shunting_yard_identity and
+   the lexing of the unspaced neighbours (`-a`, `f(`, `a[`, `a,`) is C12's tokenizer model, proved there for
+   blank-separated tokens only; the check's differential runs cover them. *)
+Theorem reparse_identity_partial : forall t, btree t -> wfE None t ->
+  parse_source fixed (print fixed true t ++ [0]) = Ok (Some t).
+Proof. exact reparse_spaced. Qed.
+Print Assumptions reparse_identity_partial.
+
+(* printing such a tree is printing its tokens, one blank apart *)
+Theorem print_is_token_sequence : forall c15fix t, btree t ->
+  print fixed c15fix t = printSeq fixed (ctoks t) /\ ptoks_of (ctoks t) = toks t.
+Proof. intros. split; [apply print_btree | apply ptoks_ctoks]; auto. Qed.
+Print Assumptions print_is_token_sequence.
+
+(* ---------------------------------------------------------------- the code as found *)
+Definition x_ : expr := EAtom (AId [120]).
+
+(* - -x, + +x, & &x, - --x print as --x, ++x, &&x, ---x and come back as other trees or not at all *)
+Theorem unary_glue_refuted :
+  parse_source fixed (print fixed false (ELeft op_negative (ELeft op_negative x_)) ++ [0]) = Ok (Some (ELeft op_leftDecrement x_)) /\
+  parse_source fixed (print fixed false (ELeft op_positive (ELeft op_positive x_)) ++ [0]) = Ok (Some (ELeft op_leftIncrement x_)) /\
+  parse_source fixed (print fixed false (ELeft op_address (ELeft op_address x_)) ++ [0]) = Ok None /\
+  parse_source fixed (print fixed false (ELeft op_negative (ELeft op_leftDecrement x_)) ++ [0])
+    = Ok (Some (ELeft op_leftDecrement (ELeft op_negative x_))) /\
+  wfE None (ELeft op_negative (ELeft op_negative x_)).
+Proof.
+  repeat split; try (vm_compute; reflexivity).
+  apply W_left; [cbn; auto | | vm_compute; reflexivity].
+  apply W_left; [cbn; auto | apply W_atom | vm_compute; reflexivity].
+Qed.
+Print Assumptions unary_glue_refuted.
+
+(* with fixes/C15-1.patch they come back unchanged *)
+Theorem unary_glue_fixed :
+  parse_source fixed (print fixed true (ELeft op_negative (ELeft op_negative x_)) ++ [0]) = Ok (Some (ELeft op_negative (ELeft op_negative x_))) /\
+  parse_source fixed (print fixed true (ELeft op_positive (ELeft op_positive x_)) ++ [0]) = Ok (Some (ELeft op_positive (ELeft op_positive x_))) /\
+  parse_source fixed (print fixed true (ELeft op_address (ELeft op_address x_)) ++ [0]) = Ok (Some (ELeft op_address (ELeft op_address x_))) /\
+  parse_source fixed (print fixed true (ELeft op_negative (ELeft op_leftDecrement x_)) ++ [0])
+    = Ok (Some (ELeft op_negative (ELeft op_leftDecrement x_))).
+Proof. repeat split; vm_compute; reflexivity. Qed.
+Print Assumptions unary_glue_fixed.
+
+(* sizeof(x) printed as sizeof((x)) (as found) / sizeof(x) (fixes/C15-2.patch) *)
+Theorem sizeof_parentheses_refuted :
+  parse_source fixed (print fixed false (ESizeof (EParen x_)) ++ [0]) = Ok (Some (ESizeof (EParen (EParen x_)))) /\
+  parse_source fixed (print fixed true (ESizeof (EParen x_)) ++ [0]) = Ok (Some (ESizeof (EParen x_))).
+Proof. split; vm_compute; reflexivity. Qed.
+Print Assumptions sizeof_parentheses_refuted.
+
+(* valid C that expressionParser does not parse (outside the property, which is conditional on a parse):
+   a + -b (unless the source has fixes/C14-7.patch: ambfix),  (a++),  a ? b ? c : d : e *)
+Theorem rejected_shapes :
+  (ambfix = false -> parse_source fixed ([97; 32; 43; 32; 45; 98] ++ [0]) = Ok None) /\
+  parse_source fixed ([40; 97; 43; 43; 41] ++ [0]) = Ok None /\
+  parse_source fixed ([97; 63; 98; 63; 99; 58; 100; 58; 101] ++ [0]) = Ok None.
+Proof.
+  repeat split; try (vm_compute; reflexivity); intro H; vm_compute in H; try discriminate; vm_compute; reflexivity.
+Qed.
+Print Assumptions rejected_shapes.
+
+(* ---------------------------------------------------------------- non-vacuity *)
+Definition id_ (c : Z) : expr := EAtom (AId [c]).
+
+(* a = f(x, y)[i]++ + (b - c) / !d *)
+Definition example_tree : expr :=
+  EBin op_assign (id_ 97)
+    (EBin op_add
+       (ERight op_rightIncrement (ESub (ECall (id_ 102) (EBin op_comma (id_ 120) (id_ 121))) (id_ 105)))
+       (EBin op_div (EParen (EBin op_sub (id_ 98) (id_ 99))) (ELeft op_not_ (id_ 100)))).
+
+Example example_wf : wfE None example_tree.
+Proof.
+  unfold example_tree, id_.
+  apply W_bin; [vm_compute; tauto | apply W_atom | | vm_compute; reflexivity ..].
+  apply W_bin; [vm_compute; tauto | | | vm_compute; reflexivity ..].
+  - apply W_right; [cbn; auto | | vm_compute; reflexivity ..].
+    apply W_sub; [constructor | | apply W_atom].
+    apply W_call; [constructor | apply W_atom | ].
+    apply W_bin; [vm_compute; tauto | apply W_atom | apply W_atom | vm_compute; reflexivity ..].
+  - apply W_bin; [vm_compute; tauto | | | vm_compute; reflexivity ..].
+    + apply W_paren. apply W_bin; [vm_compute; tauto | apply W_atom | apply W_atom | vm_compute; reflexivity ..].
+    + apply W_left; [cbn; auto | apply W_atom | vm_compute; reflexivity].
+Qed.
+
+Example example_end_to_end :
+  parse_source fixed (print fixed true example_tree ++ [0]) = Ok (Some example_tree)
+  /\ print fixed true example_tree =
+     [97; 32; 61; 32; 102; 40; 120; 44; 32; 121; 41; 91; 105; 93; 43; 43; 32; 43; 32; 40; 98; 32; 45; 32; 99; 41; 32; 47; 32; 33; 100].
+Proof. split; vm_compute; reflexivity. Qed.
+
+(* a << b + c * d : spaced, parsed with + and * below << *)
+Definition example_btree : expr :=
+  EBin op_leftShift (id_ 97) (EBin op_add (id_ 98) (EBin op_mult (id_ 99) (id_ 100))).
+Example example_btree_ok : btree example_btree /\ wfE None example_btree
+  /\ spec_verdict (toks example_btree) = VTree example_btree.
+Proof.
+  unfold example_btree, id_. split; [|split].
+  - repeat (apply BT_bin; [vm_compute; tauto | vm_compute; reflexivity | | ]); apply BT_atom; vm_compute; reflexivity.
+  - apply W_bin; [vm_compute; tauto | apply W_atom | | vm_compute; reflexivity ..].
+    apply W_bin; [vm_compute; tauto | apply W_atom | | vm_compute; reflexivity ..].
+    apply W_bin; [vm_compute; tauto | apply W_atom | apply W_atom | vm_compute; reflexivity ..].
+  - vm_compute. reflexivity.
+Qed.
